@@ -104,6 +104,8 @@ def run_job(job, deadline):
         target = [xb, float(to._y_best)] if cfg[0] == "equalized_odds" else [xb]
         dev2 = max(abs(a - b) for v in vals.values() for a, b in zip(v, target))
         acc.check(ctx, "groups_sit_on_the_chosen_grid_point", z3.BoolVal(bool(dev2 <= 1e-9)), signature=sig + ":gridpoint", extra={"dev": dev2})
+        on_grid = abs(ref[0] * gs - round(ref[0] * gs)) <= 1e-9
+        acc.check(ctx, "common_value_lies_on_the_requested_grid", z3.BoolVal(bool(on_grid)), signature=sig + ":requested_grid", extra={"x": ref[0], "grid_size": gs})
         valid = all(-1e-12 <= p <= 1 + 1e-12 for p in p1) and all(abs(float(pm[i, 0]) + p1[i] - 1) < 1e-12 for i in range(n))
         acc.check(ctx, "probabilities_valid", z3.BoolVal(bool(valid)), signature=sig + ":pmf")
         acc.canary(ctx, "canary_path_nontrivial", z3.Real("s0") > 2)
@@ -130,6 +132,8 @@ def replay(cex):
     vals = group_metric_values(cfg[0], y, groups, p1)
     ref = vals[min(vals)]
     dev = max(abs(a - b) for v in vals.values() for a, b in zip(v, ref))
-    bad = dev > 1e-9 or not all(-1e-12 <= p <= 1 + 1e-12 for p in p1)
+    off_grid = abs(ref[0] * gs - round(ref[0] * gs)) > 1e-9
+    bad = dev > 1e-9 or not all(-1e-12 <= p <= 1 + 1e-12 for p in p1) or off_grid
     return {"reproduced": bool(bad), "detail": f"expected {constrained_metrics(cfg[0])} per group = {vals} (max deviation {dev:.3g}) for scores={scores} y={y} groups={groups} "
-                                              f"constraints={cfg[0]} objective={cfg[1]} flip={cfg[2]} grid_size={gs} p1={p1}"}
+                                              f"constraints={cfg[0]} objective={cfg[1]} flip={cfg[2]} grid_size={gs} (configured {'through set_params' if gs % 2 == 0 else 'in the constructor'}) "
+                                              f"common value on requested grid: {not off_grid} p1={p1}"}
